@@ -190,9 +190,23 @@ def _library_did_exact_em(case):
     return True
 
 
-def _outside_basin_or_violation(case, clause, detail, kind):
+def _outside_basin_or_violation(case, clause, detail, kind, model=None):
     exact = _library_did_exact_em(case)
     if exact == 'ill-conditioned':
+        # the step-by-step comparison is not meaningful on a guard; but the
+        # labels can still be compared with the reference posterior of the
+        # fitted model itself: if that one has every observation in its true
+        # class, the library's own posterior is what is wrong
+        if model is not None and clause == 'argmax-is-not-the-true-class':
+            from pbv.props import c08
+            try:
+                ref_post, _ = c08.estep_oracle(case, model)
+            except Exception:  # noqa
+                ref_post = None
+            if ref_post is not None and np.all(np.isfinite(ref_post)) and \
+                    np.array_equal(np.argmax(ref_post, axis=-2), case.labels):
+                raise Violation(clause, detail + ' [the reference posterior of the fitted '
+                                'model has every observation in its true class]', kind=kind)
         raise Borderline('a model of the trajectory sits on a numerical guard (' + clause + ')')
     if exact:
         raise Borderline('every step equals the reference EM: exact EM itself '
@@ -234,7 +248,7 @@ def _check(d, ctx, kind):
                 case, 'argmax-is-not-the-true-class',
                 f'{name}: {wrong} of {case.labels.size} observations mislabelled '
                 f'(eps={case.meta["eps"]:.1e} beta={case.meta["beta"]:.2f} '
-                f'iterations={case.iterations})', kind)
+                f'iterations={case.iterations})', kind, model=model)
     # parameters point at the prototypes.  One or two M-steps on a blurred
     # partition still carry the blur (mean = blurred mean); the clause is
     # judged for an exact start or after >= 10 iterations with a sharpened
